@@ -451,10 +451,17 @@ def c_int(v):
     return "%dLL" % v if v >= 0 else "(-%dLL)" % -v
 
 
+def c_print(t):
+    """(C type to print a value of type t with, the same, printf format): unsigned values are printed unsigned."""
+    if t in TYPES and not is_signed(t):
+        return ("unsigned long long", "unsigned long long", "%llu")
+    return ("long long", "long long", "%lld")
+
+
 def render_c_main(prog, f, vecs):
-    """C program: argv[1] selects the argument vector; prints RET and the final value of every non-pointer global."""
+    """C program: every argument selects an argument vector; prints K <index>, RET and the final value of every non-pointer global."""
     genv = Env(prog)
-    out = ["#include <stdio.h>", "#include <stdlib.h>", "#include <stdint.h>"]
+    out = ["#include <stdio.h>", "#include <stdlib.h>", "#include <stdint.h>", "#include <string.h>"]
     for c in prog.get("consts", []):
         out.append("#define %s ((%s)%s)" % (c["n"], CNAME[c["ty"]], c_expr(c["e"], genv)))
     for g in prog["globals"]:
@@ -473,21 +480,34 @@ def render_c_main(prog, f, vecs):
                 out.append("  %s;" % c_decl(s))
         out += c_stmts(fn["body"], env, fn["ret"], 1)
         out.append("}")
+    # main: every argument selects an argument vector; the globals are restored to their initial image before each run
+    obs = [g for g in prog["globals"]]
+    for g in obs:
+        out.append("static %s;" % c_decl(dict(g, n=g["n"] + "__init")))
     out.append("int main(int argc, char **argv) {")
-    out.append("  int k = atoi(argv[1]);")
+    for g in obs:
+        out.append("  memcpy(&%s__init, &%s, sizeof %s);" % (g["n"], g["n"], g["n"]))
+    out.append("  for (int a = 1; a < argc; a++) {")
+    out.append("    int k = atoi(argv[a]);")
+    for g in obs:
+        out.append("    memcpy(&%s, &%s__init, sizeof %s);" % (g["n"], g["n"], g["n"]))
+    out.append("    printf(\"K %d\\n\", k);")
     for k, vec in enumerate(vecs):
         args = ", ".join("(%s)%s" % (CNAME[p["ty"]], c_int(v)) for v, p in zip(vec, f["params"]))
         if f["ret"] == "void":
-            out.append("  if (k == %d) { %s(%s); printf(\"RET void\\n\"); }" % (k, f["n"], args))
+            out.append("    if (k == %d) { %s(%s); printf(\"RET void\\n\"); }" % (k, f["n"], args))
         else:
-            out.append("  if (k == %d) { long long r = (long long)%s(%s); printf(\"RET %%lld\\n\", r); }" % (k, f["n"], args))
+            out.append("    if (k == %d) { %s r = (%s)%s(%s); printf(\"RET %s\\n\", r); }" % ((k,) + c_print(f["ret"])[:2] + (f["n"], args, c_print(f["ret"])[2])))
     for g in prog["globals"]:
         if g.get("ptr"):
             continue
+        ct, _, fmt = c_print(g["ty"])
         if g["len"]:
-            out.append("  for (int j = 0; j < %d; j++) printf(\"G %s[%%d] %%lld\\n\", j, (long long)%s[j]);" % (g["len"], g["n"], g["n"]))
+            out.append("    for (int j = 0; j < %d; j++) printf(\"G %s[%%d] %s\\n\", j, (%s)%s[j]);" % (g["len"], g["n"], fmt, ct, g["n"]))
         else:
-            out.append("  printf(\"G %s %%lld\\n\", (long long)%s);" % (g["n"], g["n"]))
+            out.append("    printf(\"G %s %s\\n\", (%s)%s);" % (g["n"], fmt, ct, g["n"]))
+    out.append("    fflush(stdout);")
+    out.append("  }")
     out.append("  return 0;")
     out.append("}")
     return "\n".join(out) + "\n"
